@@ -221,6 +221,11 @@ func proxyCaseN(r *Rng, nWrappers int, maxCallers int, windowP float64, script f
 				s = &c
 			}
 			q = &question{endpoint: []string{"PValidate", "PRefresh"}[kind], s: s, allowed: append([]string(nil), upstreamAllowed[wid]...)}
+			if r.Chance(0.08) { // the upstream's groups in another letter case: a different group set
+				for i := range q.allowed {
+					q.allowed[i] = r.Pick(lookalikes(q.allowed[i]))
+				}
+			}
 			if r.Chance(0.1) { // group names full of quoting trouble, in some order
 				q.allowed = []string{r.Pick(oddStrings), r.Pick(oddStrings)}
 				if r.Chance(0.5) {
